@@ -17,8 +17,10 @@ def run(ctx):
     F = ctx.facts("quick")
     # a frame the decoder accepted from one peer but the encoder refuses towards the others turns every healthy subscriber into a
     # "failed" one (C05.D3 same quantity); ids handed out twice displace a healthy peer (counter rules)
-    from . import c05
+    from . import c05, c11
     c05.d3(ctx, F)
+    # a request that only the routing tag pushes over the limit is refused by the replier's encoder: that is not a failed replier
+    c11.d6_tagged_request_fits(ctx, F)
     ex0, sd0, cfg0, me0 = routers.explore(F, "pubsub")
     sweeps.counter_keys(ctx, F, cfg0.body, ex0.h.routing, "C08.D3", {"stream": "next_stream_id", "sink": "next_sink_id"})
     for adt in (sweeps.FAN, sweeps.ROUTER):
